@@ -26,6 +26,11 @@ CLAIMED = {
    note="Trusted: Lean kernel + propext/Quot.sound/Classical.choice; SHAKE-256 is a parameter (collision resistance assumed); the model is hand-written and tied to /repo by the M1 stream (≈19k comparisons per quick run); text-codec round trip is checked by correspondence + oracle, not yet by a theorem.",
    technique="Lean 4 proof over executable model + differential correspondence with the Rust code",
    design="§7 C18"),
+ "C06": dict(
+   text="Lean 4 theorems: for the membership Σ-protocol as coded (commit / gen_proof / finalize), the verifier's recomputed commitments equal the prover's iff c•((y+α)•C − V) = 0, for every handle, coin vector and challenge (so valid handles are always accepted and invalid ones always rejected for c ≠ 0); special soundness (two answers to one commitment yield a valid handle for the identifier encoded by s_y, the response tied to the signature proof); stale, publicly updated (deleted element) and borrowed handles fail the relation after a revocation that moves the value; composed with the registry-history theorems of C13 and the public-update history theorem of C14: in every reachable registry state every active identifier is accepted with the issuer-refreshed handle and with the handle updated from every published batch, and a revoked identifier is never refreshed. Tied to the real code by random histories (issue, blind issue, single / batch revoke, refresh, re-issuance attempts, persist) over many holders with real Presentation::create / verify for every handle class at every epoch (verdict = witness relation = model verdict), by extracting the real prover's coins from two challenges and comparing model prover / verifier output point by point (incl. the target-group element), and by proof-grafting / per-leaf deviations.",
+   note="Trusted: Lean kernel + propext/Quot.sound/Classical.choice; the pairing is read through the secret key (e(A,P~)·e(B,Q~) ↦ A + α•B: bilinearity + non-degeneracy); hash-derived generators X, Y, Z are treated as non-zero / independent; that no handle for a revoked identifier can be computed without the secret key is the q-SDH assumption, not a theorem — the theorems reduce acceptance to possession of the unique handle (y+α)⁻¹•V and show that every publicly derivable handle class differs from it; Fiat–Shamir (C04) turns commitment equality into acceptance.",
+   technique="Lean 4 proof (Σ-protocol algebra, induction over registry histories via C13/C14) + history-driven differential correspondence with real presentations",
+   design="§7 C06"),
  "C19": dict(
    text="Lean 4 theorems for the crate's own hand-written byte codecs after repair (cursor reads over fixed-width point / scalar encoders: PS public key and BBS proof-of-knowledge layouts round-trip for every value; the pinned BBS length test is proved unsatisfiable on any encoding), tied to the real from_bytes by differential correspondence on valid, truncated, extended and count-mutated encodings; for the serde-derived formats every object kind × JSON / CBOR / BARE is round-tripped on the real code (re-encoding equality and unchanged verification verdicts).",
    note="Trusted: Lean kernel + propext/Quot.sound/Classical.choice; blstrs point / scalar (de)compression and the serde back ends (serde_json, serde_cbor, serde_bare) are third-party and are parameters / exercised, not modelled; known finding F20 (BARE cannot decode structs whose serialiser skipped an optional field) is recorded, not repaired.",
